@@ -251,7 +251,9 @@ pub fn run_world_check(c: WorldCheck, tier: Tier, seed: u64) -> i32 {
     let prof = c.profile.clone();
     s.search("world", "world", tier.pick(c.cases_quick, c.cases_thorough), move || scenario_strategy(prof.clone()), &case);
     if c.prop == "C11" {
-        s.search("world-after-failed-attempts", "world", tier.pick(150, 3000), after_failed_attempts_strategy, &case);
+        use proptest::strategy::Strategy;
+        // in half of the histories the failure-notification service (e-mail) never returns
+        s.search("world-after-failed-attempts", "world", tier.pick(150, 3000), || (after_failed_attempts_strategy(), proptest::bool::ANY).prop_map(|(mut x, st)| { x.notif_stall = st; x }), &case);
     }
     if c.prop == "C02" && tier == Tier::Thorough {
         // the hook handler and main() are only reachable through the binary: a pay command that takes long
@@ -277,6 +279,37 @@ pub fn run_world_check(c: WorldCheck, tier: Tier, seed: u64) -> i32 {
             s.extra.insert("delay_enumeration".into(), json!({"base_histories": 200, "variants": all.len(), "per_base": "every RPC ordinal withheld for 6 / 14 / 30 further node-side effects"}));
             s.enumerate("enumerate-delayed-rpcs", "world", all, &case);
         }
+    }
+    if matches!(c.prop, "C02" | "C04" | "C05" | "C08" | "C11") {
+        // the operator changes options between two runs: policy, safety delta, MPP timeout of the later lifetimes differ
+        use proptest::strategy::Strategy;
+        let p = Profile { w_crash: 9, ..c.profile.clone() };
+        let normal = Profile::default();
+        let extreme = Profile { extreme_cfg: true, ..Profile::default() };
+        s.search(
+            "world-config-changed-across-restart",
+            "world",
+            tier.pick(150, 3000),
+            move || {
+                (scenario_strategy(p.clone()), proptest::prop_oneof![2 => cfg_strategy(&normal), 1 => cfg_strategy(&extreme)]).prop_map(|(mut x, mut later)| {
+                    later.allow_self = x.cfg.allow_self;
+                    // same clamp as for the first configuration: amount * ppm stays below 2^63 (known C12 finding, DESIGN 13.4)
+                    let max_amount = x.payments.iter().flat_map(|p| [p.invoice_amount.unwrap_or(0), p.tlv_amount]).chain(x.htlcs.iter().flat_map(|h| [h.amount_msat, h.total_msat.unwrap_or(0), h.forward_msat.unwrap_or(0)])).max().unwrap_or(1).max(1);
+                    later.ppm = later.ppm.min((u64::MAX / 2 / max_amount).min(u32::MAX as u64) as u32);
+                    x.cfg_later = Some(later);
+                    x
+                })
+            },
+            &case,
+        );
+    }
+    if matches!(c.prop, "C01" | "C05" | "C08") {
+        // payment 0 was paid by an earlier run of the pinned release: its Succeeded record (that release's stored
+        // format) and a complete part exist from the start; replays, late parts and sender retries follow
+        use proptest::strategy::Strategy;
+        let p = c.profile.clone();
+        s.assume("records written by the release this harness is pinned to (stored format of that commit) belong to the input domain: a node is upgraded with its datastore in place");
+        s.search("world-paid-by-earlier-run", "world", tier.pick(100, 2000), move || scenario_strategy(p.clone()).prop_map(|mut x| { x.initial_succeeded = vec![0]; x }), &case);
     }
     if matches!(c.prop, "C05" | "C08") {
         // the stored-state read alone fails (an RPC error is not "nothing stored"): crashes onto Pending records + failing listdatastore
@@ -549,6 +582,12 @@ pub fn run_c09(tier: Tier, seed: u64) -> i32 {
         s.enumerate("enumerate-two-attempt-histories", "world", all, &case);
     }
     let prof = Profile { mpp_choices: NONZERO, probe: true, w_crash: 8, max_payments: 2, w_under: 5, ..d.clone() };
+    {
+        use proptest::strategy::Strategy;
+        let p = prof.clone();
+        s.assume("records written by the release this harness is pinned to (stored format of that commit) belong to the input domain: a node is upgraded with its datastore in place");
+        s.search("world-paid-by-earlier-run", "world", tier.pick(100, 1500), move || scenario_strategy(p.clone()).prop_map(|mut x| { x.initial_succeeded = vec![0]; x }), &case);
+    }
     s.search("world-random-crashes", "world", tier.pick(300, 3000), move || scenario_strategy(prof.clone()), &case);
     s.finish()
 }
